@@ -544,6 +544,42 @@ def c02(tier):
                 # the PRE-optimisation program is also judged by the source semantics (spec machine of record: Aiken.tla)
                 pre_events.append({"id": len(pre_events), "m": m["spec"], "f": "entry", "sig": m["sig"], "ret": ag.DATA, "args": a,
                                    "out": slim(x["pre"]), "_mi": mi, "_ai": ai, "_tr": r["tracing"]})
+    # directed families (aikendirected.py) and constants beyond a machine word: same chain comparison
+    import aikendirected as ad
+    dmods, devents, dobs = run_directed([["all", "silent"], ["all", "verbose"]], rep, pre=True, stages=True)
+    for e in devents:
+        x = e["_x"]
+        m = dmods[e["_mi"]]
+        pairs += 1
+        chain = [("pre", x["pre"])] + [(s2["stage"], s2["out"]) for s2 in x.get("stages", [])] + [("post", x["post"])]
+        keys = [outcome_key(o2) for _, o2 in chain]
+        if len(set(keys)) > 1:
+            disagreements += 1
+            first = next(i for i in range(1, len(keys)) if keys[i] != keys[i - 1])
+            rep.violation(classify_chain(chain) or vlib.canon_hash([m["family"], fn_source(m["src"], e["_fn"]), e["args"], e["_tr"]]),
+                          {"src": m["src"], "fn": e["_fn"], "args": e["args"], "tracing": e["_tr"], "function": fn_source(m["src"], e["_fn"]),
+                           "chain": [[s2, slim(o2)] for s2, o2 in chain], "first_divergence": chain[first][0]},
+                          "directed family %s: the optimiser changed the outcome at stage %s: %s -> %s" % (m["family"], chain[first][0], keys[first - 1][:80], keys[first][:80]))
+    big = ad.big_constant_module()
+    bo = vlib.run_harness("aiken_run", stdin_lines=[{"id": 0, "src": big["src"], "tracings": [["all", "silent"], ["all", "verbose"]],
+                                                     "fns": [{"name": n2, "args": [[]]} for n2 in big["fns"]], "pre": True, "stages": True}])[0]
+    for r in bo["runs"]:
+        if r["check"] != "ok":
+            raise vlib.ToolError("the big-constant module is rejected: %s" % json.dumps(r["check"])[:400])
+        for n2, f in zip(big["fns"], r["fns"]):
+            if f["compile"] != "ok":
+                rep.violation("compile-panic:bigconst:" + n2, {"src": big["src"], "fn": n2, "compile": f["compile"]}, "compiler panicked on a constant: %s" % json.dumps(f["compile"])[:300])
+                continue
+            x = f["results"][0]
+            pairs += 1
+            chain = [("pre", x["pre"])] + [(s2["stage"], s2["out"]) for s2 in x.get("stages", [])] + [("post", x["post"])]
+            keys = [outcome_key(o2) for _, o2 in chain]
+            if len(set(keys)) > 1:
+                disagreements += 1
+                first = next(i for i in range(1, len(keys)) if keys[i] != keys[i - 1])
+                rep.violation(classify_chain(chain) or ("bigconst:" + fn_source(big["src"], n2)),
+                              {"src": big["src"], "fn": n2, "args": [], "tracing": r["tracing"], "chain": [[s2, slim(o2)] for s2, o2 in chain]},
+                              "constant %s: the optimiser changed the outcome at stage %s: %s -> %s" % (n2, chain[first][0], keys[first - 1][:80], keys[first][:80]))
     if programs < 0.7 * n:
         raise vlib.ToolError("C02: only %d programs compiled" % programs)
     if replica_bad:
